@@ -42,9 +42,9 @@ func runC12(c *Ctx) error {
 	T := c.Trace("RetryTrace")
 	ms := time.Millisecond
 	type timing struct {
-		ini, max     time.Duration
-		mn, md       int
-		rfn, rfd     int
+		ini, max time.Duration
+		mn, md   int
+		rfn, rfd int
 	}
 	timings := []timing{
 		{0, 0, 1, 1, 0, 1},
